@@ -782,9 +782,16 @@ Quat<T>::setRotation (const Vec3<T>& from, const Vec3<T>& to) IMATH_NOEXCEPT
         // from f0 to h0, then from h0 to t0.
         //
 
-        Vec3<T> h0 = (f0 + t0).normalized ();
+        // f0 + t0 vanishes when the directions are opposite, but only up
+        // to the rounding of the two normalizations: a sum of a few
+        // epsilon is noise (parallel to f0), not a usable halfway vector.
+        //
 
-        if ((h0 ^ h0) != 0)
+        Vec3<T> s0 = f0 + t0;
+        Vec3<T> h0 = s0.normalized ();
+
+        if ((s0 ^ s0) > T (64) * std::numeric_limits<T>::epsilon () *
+                            std::numeric_limits<T>::epsilon ())
         {
             setRotationInternal (f0, h0, *this);
 
